@@ -13,7 +13,8 @@ TWO_PHASE = True
 RULE = ("case = scheduler seed + sendmsg answer script + programs. 2-8 sender tasks, each sending 1-8 (quick) / 1-20 (thorough) "
         "signals with distinct bodies of 0-300 bytes, ~15% carrying 1-3 descriptors (zvariant::Fd in the body), over ONE real "
         "Connection (Builder::authenticated_socket, p2p) whose write half accepts a scripted number of bytes per sendmsg (1, 2, 3, "
-        "5, 8, 16, 17, 50, 100, all) and suspends (Pending + wake) 0-3 times before answering; the task futures are polled in a "
+        "5, 8, 16, 17, 50, 100, all) and suspends (Pending + wake) 0-3 times before answering, in 60% of the cases once or twice for 12 ms (so that waiting senders "
+        "pass the 0.5 ms starvation threshold of async_lock and must be served next); the task futures are polled in a "
         "seeded random order, so other senders run exactly while a write is suspended. The harness prints the programs and every "
         "sendmsg call (task being polled, bytes offered, bytes accepted, descriptors, the bytes); the model replays it through "
         "Model.step, the spec oracle cuts the received wire into messages. non-trivial = at least two tasks, a partial write, and "
@@ -57,6 +58,12 @@ def gen_case(rng, tier):
             n = rng.choice([1, 2, 3, 5, 8, 16, 17, 50, 100, 1000000])
         p = rng.choice([0, 0, 1, 1, 2, 3]) if style >= 0.05 else 0
         script.append("p" * p + str(n))
+    # one or two answers of a transport that stays busy for 12 ms (waiters become "starved" in async_lock's sense)
+    if script and rng.random() < 0.6:
+        for _ in range(rng.choice([1, 1, 2])):
+            i = rng.randrange(min(len(script), 12))
+            if not script[i].startswith("s"):
+                script[i] = "s" + script[i]
     return "W %d %s %s" % (rng.randint(0, 10 ** 9), ",".join(script) if script else "-", " ".join(tasks))
 
 
